@@ -188,7 +188,8 @@ class Ctx:
             (kf if f.key in known_keys else viol).append(f)
         if self.collect_only:
             return viol, kf
-        evdir = os.path.join(VERIF, 'evidence')
+        evdir = os.environ.get('VERIF_EVIDENCE_DIR') or os.path.join(
+            VERIF, 'evidence')
         os.makedirs(evdir, exist_ok=True)
         for r, n, h in self.floors:
             print(f'  rule {r}: {h} instances (floor {n})')
